@@ -283,7 +283,7 @@ def random_schedule(hist, rng, illegal=False, eager=0.35):
     while not sim.done():
         if illegal and sim.blocked() and rng.random() < 0.5:
             return pref + [rng.choice(sim.blocked())]
-        if illegal and sim.started < len(hist) and len(sim.inflight()) >= 4 and rng.random() < 0.5:
+        if illegal and sim.started < len(hist) and len(sim.inflight()) >= 4 and hist[sim.started][0] != "E" and rng.random() < 0.5:
             return pref + [sim.started]  # a fifth handler cannot start
         mv = sim.moves()
         if not mv:
@@ -730,7 +730,9 @@ def run(chk):
 
 
 def py_classes(case):
-    """classes decided on the case itself (not by the model, which describes the intended behaviour)."""
+    """FORMER classes (repaired by 7b7e4c7 / d1bbfb0): reported with a failing case for orientation, they
+    suppress nothing. The model agrees with the code: a didChange without content changes is invisible
+    (no ticket, no segment), one with several changes is its last text."""
     out = []
     if any(k == "M" for k, _, _ in case.hist):
         out.append("lsp-multi-change-first")
@@ -740,10 +742,6 @@ def py_classes(case):
 
 
 def _run(chk, res, gates, binary, docs):
-    # TEMPORARY (lead: drop after merging build/kf-C18.json into known_findings.json)
-    p = os.path.join(vlib.VERIF, "build", "kf-C18.json")
-    if os.path.exists(p):
-        chk.findings = json.load(open(p))
     known = {f["id"] for f in chk.findings if f.get("status") == "known"}
     if VARIANT == "Repaired":
         known = set()
@@ -782,7 +780,6 @@ def _run(chk, res, gates, binary, docs):
             continue
         dist[c.tag] = dist.get(c.tag, 0) + 1
         chk.count_case(c.key(), nontrivial=r["legal"] and len(c.hist) > 1)
-        pyc = [x for x in py_classes(c) if x in known]
         cls, dd, former = [], [], []
         if model is not None:
             mv = model[i]
@@ -798,23 +795,20 @@ def _run(chk, res, gates, binary, docs):
             dd = compare(c, r, m, gates)
             if r["pubs"] != m[3] and (r["legal"] and m[0]):
                 dd.append("publishDiagnostics stream: model %r, server %r" % (m[3], r["pubs"]))
-            if dd and not pyc:
+            if dd:
                 corr_bad.append({"case": c.key(), "tag": c.tag, "differences": dd[:6]})
         if r["quiescent"]:
             why = oracle(c, r, ref)
             if why:
-                # suppressed only if the case lies in a LISTED class; for the model class additionally the server
-                # must have done exactly what the model predicts for it
+                # suppressed only if the case lies in the LISTED class and the server did exactly what the
+                # model predicts for it
                 listed = [x for x in cls if x in known and x == "lsp-error-keeps-old"]
                 if listed and not dd and model is not None:
                     for x in listed:
                         suppressed[x] = suppressed.get(x, 0) + 1
-                elif pyc:
-                    for x in pyc:
-                        suppressed[x] = suppressed.get(x, 0) + 1
                 else:
                     fails.append({"case": c.key(), "tag": c.tag, "history": c.notes_json(), "schedule": c.sched,
-                                  "why": why, "class": cls + py_classes(c), "would_have_been_in_repaired_class": former,
+                                  "why": why, "class": cls, "would_have_been_in_repaired_class": former + py_classes(c),
                                   "server": {"pubs": r["pubs"], "hover": r["hover"]}})
     # gate-free natural runs: oracle only (the model over-approximates them)
     nat_ok = 0
@@ -823,12 +817,10 @@ def _run(chk, res, gates, binary, docs):
         dist[c.tag] = dist.get(c.tag, 0) + 1
         why = ["server/harness error: %s" % r["error"]] if r.get("error") else \
               (["natural run did not reach quiescence (stopped at %r)" % r.get("blocked_at")] if not r.get("quiescent") else oracle(c, r, ref))
-        pyc = [x for x in py_classes(c) if x in known and x == "lsp-multi-change-first"]
         if not why:
             nat_ok += 1
-        elif (py_known_syntax(c) and "lsp-error-keeps-old" in known and r.get("quiescent")) or pyc:
-            x = "lsp-error-keeps-old" if (py_known_syntax(c) and "lsp-error-keeps-old" in known and r.get("quiescent")) else pyc[0]
-            suppressed[x] = suppressed.get(x, 0) + 1
+        elif py_known_syntax(c) and "lsp-error-keeps-old" in known and r.get("quiescent"):
+            suppressed["lsp-error-keeps-old"] = suppressed.get("lsp-error-keeps-old", 0) + 1
         else:
             fails.append({"case": c.key(), "tag": c.tag + " (no gates)", "history": c.notes_json(), "schedule": c.sched, "natural": True,
                           "why": why, "class": [], "server": {"pubs": r.get("pubs"), "hover": r.get("hover")}})
